@@ -18,7 +18,7 @@ SCRATCH = "/root/scratch/seeded_wt"
 
 def sh(cmd, cwd=None, timeout=3600):
     try:
-        return subprocess.run(cmd, shell=True, cwd=cwd, env=ENV, capture_output=True, text=True, timeout=timeout)
+        return subprocess.run(cmd, shell=True, cwd=cwd, env=ENV, capture_output=True, text=True, errors="replace", timeout=timeout)
     except subprocess.TimeoutExpired as e:
         class R: pass
         r = R(); r.returncode = 124; r.stdout = (e.stdout or b"").decode() if isinstance(e.stdout, bytes) else (e.stdout or ""); r.stderr = "TIMEOUT"
